@@ -108,7 +108,8 @@ def _bcast(default, v):
 def alt_value(f, a, k, default, which):
     """Alternative answer number `which` (1, 2, 3) for draw function f called with (a, k); every value has positive
     probability (density) under numpy's semantics for that call."""
-    q = {1: QLO, 2: QHI, 3: 0.5}[which]
+    q = {1: QLO, 2: QHI, 3: 0.53125}[which]    # a typical interior value, deliberately NOT the midpoint: the
+    # midpoint of a symmetric interval is exactly 0.0, a measure-zero answer that manufactures 0/0
     if f in ('random', 'rand'):
         return _like(default, q)
     if f == 'uniform':
